@@ -13,6 +13,15 @@ def plan(tier, seed):
         conds += t1_conds("c04", "full", 3, 44, timeout=1500)
         conds += t1_conds("c04", "reduced", 6, 26, timeout=2400)
         bounds = {"S1": "every command K=4; full vocabulary N=3; reduced N=6"}
+    from harness import c04 as V
+    for slot in range(V.NSLOTS):
+        for np_ in ((1, 2) if q else (1, 2, 3)):
+            conds.append(Cond("s2-slot%d-pieces%d" % (slot, np_), "harness/c04.py", "s2",
+                              env={"C04_SLOT": slot, "C04_NPIECES": np_}, timeout=280 if q else 3000))
+    conds.append(Cond("s2-vacuity", "harness/c04.py", "s2", env={"C04_SLOT": 1, "C04_NPIECES": 1}, timeout=90, vacuity=True))
+    bounds["S2"] = ("raw string token of 1-%d symbolic pieces (an arbitrary code point, or an escape pair) as string argument, list "
+                    "element, tag parameter list element, at nesting depth 0-2, and a text: block body of 1-%d arbitrary characters"
+                    % ((2, 2) if q else (3, 3)))
     conds += twins("c04")
     meta = dict(functions=PARSER_FUNCS + ["sievelib.commands.Command.tosieve"],
                 bounds=bounds, outside=["values longer than the S2 bound", "scripts beyond the token bounds"],
